@@ -283,11 +283,17 @@ func c12enumerate() []c12case {
 	}
 	// round 11: a logger that was Closed before the call, a nil writer set after the real ones; package entry points with a
 	// child as the default logger
+	d = 0
 	for _, b := range base {
 		if b.Format == "logfmt" && b.Admit {
 			x, y := b, b
 			x.AfterClose, y.NilWriter = true, true
-			out = append(out, x, y)
+			if d%2 == 0 { // the quick tier takes every second cell: both parities see both kinds
+				out = append(out, x, y)
+			} else {
+				out = append(out, y, x)
+			}
+			d++
 		}
 	}
 	for _, b := range base {
